@@ -301,11 +301,20 @@ theorem pre_of_not_edits (s : St) (e : Ev) (st : Started) (n' : String) (snap ot
     rw [hot'] at h3; cases h3
     exact ⟨ot, rfl, by rw [← (attrs_eq ha).2.2.2.2]; exact hg', by rw [← hrel.2.1]; exact hd', ha⟩
 
-/-- a job that was started at the end of this event satisfies the invariant with the ghost set to the
+/-- nobody references a tag that `delTag` accepts (`refBy` mirrors the references) -/
+theorem href_of_reach (s : St) (e : Ev) (hr : Reach s) :
+    ∀ name' t', e = .delTag name' → sget s.tags name' = some t' → t'.refBy = [] →
+      ∀ n t, sget s.tags n = some t → name' ∉ t.refs := by
+  intro name' t' _ ht' hrb n t ht hmem
+  have := hr.refByWF (n, t) (sget_mem' ht) name' hmem t' ht'
+  rw [hrb] at this; cases this
+
+/-- a job that was started during this event satisfies the invariant with the ghost set to the
     truth after the event -/
 theorem jobInv_fresh (s : St) (e : Ev) (st : Started) (T' : Truth) (hr : Reach s) (hev : C09.EvOK s e)
-    (hgen' : GenInv (step s e st).1)
-    (h : s.jTag = none ∨ ∃ n r, e = .tagDone n r) (hinv' : C06.Inv (step s e st).1 T') :
+    (hgen : GenInv s) (hgen' : GenInv (step s e st).1)
+    (h : s.jTag = none ∨ ∃ n r, e = .tagDone n r) (hinv' : C06.Inv (step s e st).1 T')
+    (hnl' : (step s e st).1.next ≤ (step s e st).1.all) :
     JobInv (step s e st).1 T' T' := by
   intro jn snap held n ot' hj' hot' hg' _
   have h0 : s.tag = false ∨ ∃ n r, e = .tagDone n r := by
@@ -319,27 +328,43 @@ theorem jobInv_fresh (s : St) (e : Ev) (st : Started) (T' : Truth) (hr : Reach s
     intro n r he jn' snap' held' hj
     subst he
     exact hev jn' snap' held' hj
-  obtain ⟨ot, hot, hm, hu, _, hf1, hf2, hf3, hf4, _, _, _, hf5⟩ :=
-    job_started s e st jn snap held hr.tagsWF hr.jobsWF.1 hev' h0 hj'
-  have hn : n = jn := hgen'.2.2 n ot' jn ot hot' hot (by rw [hg', hf5])
-  subst hn
-  rw [hot'] at hot; cases hot
-  right
-  refine ⟨attrs_mk hf3 hf4 hf1 hf2 hf5, ?_⟩
-  intro id hid hne
-  exfalso
-  apply hne
-  unfold Ans
-  split
-  · rfl
-  · rename_i hnu
-    have := hinv' n ot' hot' id hid (by rw [hu]; exact hnu)
-    rw [hm] at this
-    by_cases hmem : id ∈ snap.mat
-    · simp [hmem, this.1 hmem]
-    · cases hT : T' n id with
-      | false => simp [hmem]
-      | true => exact absurd (this.2 hT) hmem
+  rcases job_started s e st jn snap held hr.tagsWF hr.uncBounded (href_of_reach s e hr) hr.jobsWF.1 hev' h0 hj' with
+    ⟨ot, hot, hm, hsub, _, hf1, hf2, hf3, hf4, hf5, hlate⟩ | ⟨he, hgone, t, ht, _, _, _, _, e5⟩
+  · have hn : n = jn := hgen'.2.2 n ot' jn ot hot' hot (by rw [hg', hf5])
+    subst hn
+    rw [hot'] at hot; cases hot
+    right
+    refine ⟨attrs_mk hf3 hf4 hf1 hf2 hf5, ?_⟩
+    intro id hid hne
+    have hidall : id < (step s e st).1.all := Nat.lt_of_lt_of_le hid hnl'
+    by_cases hsu : id ∈ snap.unc
+    · exfalso; apply hne; unfold Ans; rw [if_pos hsu]
+    · by_cases hou : id ∈ ot'.unc
+      · obtain ⟨hmk, hl⟩ := hlate id hou hsu hidall
+        refine Or.inr ⟨hmk, ?_⟩
+        rcases hl with ⟨r, hr', tr, htr, hu⟩ | ⟨r, hr', tr, id', htr, hu⟩
+        · exact Or.inl ⟨r, hr', tr, htr, hu⟩
+        · exact Or.inr ⟨r, hr', id', tr, htr, hu⟩
+      · exfalso
+        apply hne
+        unfold Ans
+        rw [if_neg hsu]
+        have := hinv' n ot' hot' id hid hou
+        rw [hm] at this
+        by_cases hmem : id ∈ snap.mat
+        · simp [hmem, this.1 hmem]
+        · cases hT : T' n id with
+          | false => simp [hmem]
+          | true => exact absurd (this.2 hT) hmem
+  · -- the job was started for the tag this `delTag` deleted: no entry carries its identity any more
+    exfalso
+    subst he
+    rcases gen_origin s _ st hev n ot' hot' with ⟨u, hu, g1⟩ | ⟨m, u, he1, _⟩ | ⟨c, d, f, he1, _⟩
+    · have hn : n = jn := hgen.2.2 n u jn t hu ht (by rw [← g1, hg', e5])
+      subst hn
+      rw [hgone] at hot'; cases hot'
+    · cases he1
+    · cases he1
 
 /-! ## the sweep -/
 open Pk.Proofs.MgrTermination in
